@@ -17,7 +17,9 @@ import (
 	"sort"
 	"strings"
 	"sync"
+	"sync/atomic"
 	"testing"
+	"time"
 
 	nrtv1alpha1 "github.com/k8stopologyawareschedwg/noderesourcetopology-api/pkg/apis/topology/v1alpha1"
 
@@ -554,7 +556,25 @@ type vtC06Edge struct {
 	set         cpuset.CPUSet
 }
 
+// vtC06SigTOM tells the harness when a resourceManager entry point has started (every entry point
+// reads the topology options first, then fetches the node's ledger pointer, then locks it)
+type vtC06SigTOM struct {
+	TopologyOptionsManager
+	ch atomic.Value // chan struct{}
+}
+
+func (s *vtC06SigTOM) GetTopologyOptions(nodeName string) TopologyOptions {
+	if c, ok := s.ch.Load().(chan struct{}); ok && c != nil {
+		select {
+		case c <- struct{}{}:
+		default:
+		}
+	}
+	return s.TopologyOptionsManager.GetTopologyOptions(nodeName)
+}
+
 type vtC06Live struct {
+	sig     *vtC06SigTOM
 	rm      ResourceManager
 	tom     TopologyOptionsManager
 	handler *podEventHandler
@@ -630,13 +650,14 @@ func vtC06NewLive(r *vtC06Rd) *vtC06Live {
 		o.ReservedCPUs = opts.ReservedCPUs
 		o.NUMANodeResources = caps
 	})
-	rm := NewResourceManager(vtC06Suit.Handle, vtC06Strategy(most), tom)
+	sig := &vtC06SigTOM{TopologyOptionsManager: tom}
+	rm := NewResourceManager(vtC06Suit.Handle, vtC06Strategy(most), sig)
 	plugin := &Plugin{
 		handle:                 &frameworkHandleExtender{FrameworkExtender: vtC06Suit.Extender, Clientset: vtC06Suit.NRTClientset},
 		resourceManager:        rm,
 		topologyOptionsManager: tom,
 	}
-	return &vtC06Live{rm: rm, tom: tom, handler: &podEventHandler{resourceManager: rm}, plugin: plugin,
+	return &vtC06Live{sig: sig, rm: rm, tom: tom, handler: &podEventHandler{resourceManager: rm}, plugin: plugin,
 		node: &corev1.Node{ObjectMeta: metav1.ObjectMeta{Name: vtC06Node}}, bound: map[int64]*PodAllocation{}}
 }
 
@@ -1039,7 +1060,65 @@ func vtC06ConcExec(in []int64) []int64 {
 	for j := range reqs {
 		out = append(out, results[j]...)
 	}
-	return append(out, vtC06Dump(l.rm)...)
+	out = append(out, vtC06Dump(l.rm)...)
+	// race episodes: Release(rel) and Update(new pod) have both fetched the node's ledger pointer
+	// before either gets its lock; the harness holds a read lock until both are queued
+	ne := 0
+	if r.p < len(r.in) {
+		ne = int(r.next())
+	}
+	for e := 0; e < ne; e++ {
+		rel := r.next()
+		if r.next() != 3 {
+			panic("bad episode")
+		}
+		uid, excl := r.next(), r.next()
+		cpus := r.list()
+		nn := int(r.next())
+		status := &extension.ResourceStatus{}
+		for j := 0; j < nn; j++ {
+			nd, c, m := r.next(), r.next(), r.next()
+			status.NUMANodeResources = append(status.NUMANodeResources, extension.NUMANodeResource{Node: int32(nd), Resources: vtC06ResList(c, m)})
+		}
+		seen := map[int]bool{}
+		var ded []int
+		for _, c := range cpus {
+			if !seen[c] {
+				seen[c] = true
+				ded = append(ded, c)
+			}
+		}
+		alloc := vtC06Spelled(uid, excl, ded, status)
+		na := l.rm.GetNodeAllocation(vtC06Node)
+		na.lock.RLock()
+		relDone, updDone := make(chan struct{}), make(chan struct{})
+		go func() { l.rm.Release(vtC06Node, vtC06UID(rel)); close(relDone) }()
+		deadline := time.Now().Add(2 * time.Second)
+		for na.lock.TryRLock() { // until the Release is queued behind the reader
+			na.lock.RUnlock()
+			runtime.Gosched()
+			if time.Now().After(deadline) {
+				break
+			}
+		}
+		entered := make(chan struct{}, 1)
+		l.sig.ch.Store(entered)
+		go func() { l.rm.Update(vtC06Node, alloc); close(updDone) }()
+		select {
+		case <-entered:
+		case <-time.After(2 * time.Second):
+		}
+		l.sig.ch.Store((chan struct{})(nil))
+		for k := 0; k < 200; k++ {
+			runtime.Gosched()
+		}
+		time.Sleep(3 * time.Millisecond)
+		na.lock.RUnlock()
+		<-relDone
+		<-updDone
+		out = append(out, vtC06Dump(l.rm)...)
+	}
+	return out
 }
 
 func vtC06LedgerGen(r *rand.Rand, i int) (string, []int64) {
@@ -1327,7 +1406,25 @@ func vtC06ConcGen(r *rand.Rand, i int) (string, []int64) {
 		}
 		in = append(in, request(int64(7+j), n)...)
 	}
-	return fmt.Sprintf("ref%d:alloc%d", maxRef, na), in
+	// race episodes: each releases the pod the previous one recorded (often the node's last pod)
+	ne := 1 + r.Intn(3)
+	in = append(in, int64(ne))
+	prev := int64(0)
+	for j := 0; j < ne; j++ {
+		rel := prev
+		if r.Intn(5) == 0 {
+			rel = int64(r.Intn(3))
+		}
+		uid := int64(10 + j)
+		k := 1 + r.Intn(3)
+		in = append(in, rel, 3, uid, int64(r.Intn(3)), int64(k))
+		for c := 0; c < k; c++ {
+			in = append(in, int64(cpus[r.Intn(len(cpus))].id))
+		}
+		in = append(in, 0)
+		prev = uid
+	}
+	return fmt.Sprintf("ref%d:alloc%d:race%d", maxRef, na, ne), in
 }
 
 func TestVerifC06Conc(t *testing.T) {
